@@ -41,7 +41,7 @@ def run(ctx):
     ctx.check_theorems("EmbossV.View.Properties_C04", "View/Properties_C04.v", expect_min=4)
 
     n_mod = 120 if ctx.thorough() else 12
-    n_buf = 40 if ctx.thorough() else 24
+    n_buf = 12 if ctx.thorough() else 5
     jobs, infos = [], []
     flags = ["-std=c++14", "-O0", "-gline-tables-only", "-fsanitize=address,undefined", "-fno-sanitize-recover=all", "-fno-omit-frame-pointer"]
     for i in range(n_mod):
@@ -59,7 +59,14 @@ def run(ctx):
             tr = view_x.ViewTranslator(ir)
             tr.module()     # same model subset as C01
             top = [k for k, t in enumerate(tr.types) if t.name.name.text == "Top"][0]
-            bufs = gen_view.buffers_for(ctx.rng, 80, n_buf)
+            fills = [lambda: 0, lambda: 255, lambda: ctx.rng.randrange(256), lambda: ctx.rng.choice([0, 1, 2, 3, 7, 128, 255]),
+                     lambda: ctx.rng.choice([1, 2, 3])]
+            bufs = []
+            for bj in range(n_buf):
+                f = fills[bj % len(fills)]
+                b = [f() for _ in range(96)]
+                b[0] = ctx.rng.choice([0, 1, 2, 3, 4, 7, 200])
+                bufs.append(b)
             from compiler.back_end.cpp import header_generator
             header, herrs = header_generator.generate_header(ir)
             if herrs:
@@ -99,11 +106,14 @@ def run(ctx):
             continue
         marks = [l for l in res.lines if l.startswith("@ ")]
         done = any(l == "DONE" for l in res.lines)
-        completed_buffers = len({m.split()[1] for m in marks}) - (0 if done else 1)
-        for bi, b in enumerate(info["bufs"]):
-            if done or bi < completed_buffers:
-                ctx.case((info["text"], tuple(b)), nontrivial=len(b) > 0,
-                         sample={"buffer": b, "module_head": info["text"][:160]})
+        lens = [l.split()[:2] for l in res.lines if l.startswith("B") and " len=" in l]
+        for bl in lens:                                   # one case per (module, base content, prefix length)
+            bi = int(bl[0][1:])
+            n = int(bl[1].split("=")[1])
+            ctx.case((info["text"], bi, n), nontrivial=n > 0,
+                     sample={"base_buffer": info["bufs"][bi][:16], "prefix_length": n, "module_head": info["text"][:160]})
+            ctx.count("prefix-length:%s" % ("0" if n == 0 else "1-8" if n <= 8 else "9-32" if n <= 32 else ">32"))
+        last_len = int(lens[-1][1].split("=")[1]) if lens else -1
         if res.ok and done:
             n_ok += 1
             continue
@@ -114,6 +124,7 @@ def run(ctx):
         kind, where = classify(res.log, last)
         key = "sanitizer:%s:%s:%s" % (kind, op, where)
         ctx.violation(key, "checked API misbehaved under sanitizers during %s: %s" % (op, res.log[:400]),
-                      dict(kind="view-safety", module=info["text"], buffer=info["bufs"][bi] if 0 <= bi < len(info["bufs"]) else None,
+                      dict(kind="view-safety", module=info["text"],
+                           buffer=(info["bufs"][bi][:last_len] if 0 <= bi < len(info["bufs"]) and last_len >= 0 else None),
                            operation=op, log=res.log[:4000]), found_input=True)
     ctx.obligation("sanitizer runs: %d/%d modules completed the whole checked API without a report" % (n_ok, len(infos)), n_ok == len(infos))
